@@ -673,6 +673,54 @@ def spaced_rule_text_case():
     return None
 
 
+def argument_rule_case():
+    """rules with exact-argument constraints, through AddMatch: a broadcast reaches the holder only if it HAS that argument with that
+    value - a signal without arguments does not satisfy arg0='foo', and arg1='' asks for an empty string, not for anything"""
+    from txdbus import message
+    net = Net()
+    a, b, c = net.connect(), net.connect(), net.connect()
+    b.call_bus('AddMatch', 's', ["type='signal',arg0='foo'"])
+    c.call_bus('AddMatch', 's', ["type='signal',arg1=''"])
+    for p in (a, b, c):
+        p.drain()
+    sent = [(None, None), ('s', ['foo']), ('s', ['bar']), ('ss', ['foo', '']), ('ss', ['x', 'y']), ('ss', ['x', '']), ('u', [5])]
+    for k, (sig, body) in enumerate(sent):
+        a.send(message.SignalMessage('/o', 'S%d' % k, 'org.e.I', signature=sig, body=body))
+    want_b = ['S1', 'S3']
+    want_c = ['S3', 'S5']
+    for who, want, rule in ((b, want_b, "arg0='foo'"), (c, want_c, "arg1=''")):
+        got = [x.member for x in who.drain() if getattr(x, 'member', '').startswith('S')]
+        if got != want:
+            return 'a subscriber with the rule %s received the signals %r of %r, expected %r' % (rule, got, [(('S%d' % k), body) for k, (_s, body) in enumerate(sent)], want)
+    return None
+
+
+def to_the_bus_case():
+    """messages of every type addressed to the bus itself are not forwarded - not even to a connection that asked for the bus's name"""
+    from txdbus import message
+    net = Net()
+    a, b = net.connect(), net.connect()
+    try:
+        b.call_bus('RequestName', 'su', ['org.freedesktop.DBus', 0])
+    except Exception:
+        pass
+    b.call_bus('AddMatch', 's', ["type='signal'"])
+    for p in (a, b):
+        p.drain()
+    BUS = 'org.freedesktop.DBus'
+    for what, m in (('a signal', message.SignalMessage('/o', 'ToBus', 'org.e.I', destination=BUS, signature='s', body=['x'])),
+                    ('a method return', message.MethodReturnMessage(4242, destination=BUS, signature='s', body=['x'])),
+                    ('an error', message.ErrorMessage('org.e.Err', 4243, destination=BUS, signature='s', body=['x']))):
+        try:
+            a.send(m)
+        except Exception as e:
+            return '%s addressed to the bus itself made the bus raise %s: %s' % (what, type(e).__name__, e)
+        got_b = [x for x in b.drain() if getattr(x, 'member', None) == 'ToBus' or getattr(x, 'reply_serial', None) in (4242, 4243)]
+        if got_b:
+            return '%s addressed to the bus itself was forwarded to a connection (%d copies)' % (what, len(got_b))
+    return None
+
+
 def big_endian_client_case():
     """a message encoded big-endian by its sender arrives decodable with the same header fields and body"""
     from . import message_harness as MH
@@ -780,7 +828,7 @@ def takeover_by_waiter_case():
 
 def bounded(tier, seed):
     n = 0
-    for case in (late_loss_of_refused_connection_case, order_case, prehello_case, dead_subscriber_case, takeover_case, namespace_subscription_case, forged_wellknown_sender_case, sender_rule_case, spaced_rule_text_case, big_endian_client_case, withdrawn_claim_case, takeover_by_waiter_case):
+    for case in (late_loss_of_refused_connection_case, order_case, prehello_case, dead_subscriber_case, takeover_case, namespace_subscription_case, forged_wellknown_sender_case, sender_rule_case, spaced_rule_text_case, argument_rule_case, to_the_bus_case, big_endian_client_case, withdrawn_claim_case, takeover_by_waiter_case):
         n += 1
         try:
             f = case()
